@@ -5,16 +5,37 @@ import hashlib, random, sys, json
 from onl.sim import Environment
 from onl.packet import Packet, PacketSink
 from onl.netdev import Port, Wire
+from onl.netdev.red_port import REDPort
+from onl.netdev.demux import RandomDemux
 from onl.scheduler import SP, WFQ, DRR, VC
 from onl.scheduler.rr import RR
 from onl.scheduler.wrr import WRR
 from vlib.util import bits, quiet
 
 NAMES = ['voice', 'video', 'data', 'bulk', 'ctrl']
+STOCHASTIC = ['loss', 'loss', 'red', 'rdemux']
 
 
-def scenario(kind, flows, seed):
+STATS = {}        # scenario key -> (packets handed to the scheduler, packets delivered): non-vacuity of the stochastic scenarios
+
+
+def scenario(kind, flows, seed, stochastic=None, key=None):
+    """`stochastic` (None | 'loss' | 'red' | 'rdemux'): the program uses the library's random elements (a lossy Wire, a
+    REDPort, a RandomDemux).  They draw from the global `random` stream, so the program seeds it at its start, as every
+    reproducible experiment does (`random.seed(seed)`); the harness puts the previous global state back afterwards."""
     rng = random.Random(seed)
+    saved = None
+    if stochastic:
+        saved = random.getstate()
+        random.seed(seed)
+    try:
+        return _scenario(kind, flows, rng, stochastic, key)
+    finally:
+        if saved is not None:
+            random.setstate(saved)
+
+
+def _scenario(kind, flows, rng, stochastic, key):
     env = Environment()
     rate = 8000.0
     w = {f: rng.choice([1, 2, 3]) for f in flows}
@@ -24,23 +45,39 @@ def scenario(kind, flows, seed):
     elif kind == 'drr': s = DRR(env, rate, w)
     elif kind == 'wfq': s = WFQ(env, rate, w)
     else: s = VC(env, rate, {f: float(w[f]) for f in flows})
-    port = Port(env, 16000.0, 50, False, 'p')
-    wire = Wire(env, lambda: 0.25)
     out = []
     class Rec:
         def put(self, p): out.append((p.flow_id, p.packet_id, bits(env.now)))
-    s.out = port; port.out = wire; wire.out = Rec()
+    if stochastic == 'red':
+        port = REDPort(env, 16000.0, max_threshold=4, min_threshold=1, max_probability=0.6, element_id='p', qlimit=30, weight_factor=1)
+    else:
+        port = Port(env, 16000.0, 50, False, 'p')
+    if stochastic:
+        wire = Wire(env, lambda: 0.25, loss_rate=rng.choice([0.1, 0.3, 0.5]))
+    else:
+        wire = Wire(env, lambda: 0.25)
+    s.out = port; wire.out = Rec()
+    if stochastic == 'rdemux':
+        side = Wire(env, lambda: 0.5, loss_rate=0.2, wire_id=1)
+        side.out = wire.out
+        port.out = RandomDemux([wire, side], [0.7, 0.3])
+    else:
+        port.out = wire
+    nput = [0]
     def src(k):
         pid = 1000 * k
         for _ in range(12):
             yield env.timeout(rng.choice([0, 0, 0.5, 1, 0.125]))
             for _ in range(rng.choice([1, 2, 3])):
                 pid += 1
+                nput[0] += 1
                 s.put(Packet(env.now, rng.choice([100, 500, 1500]), pid, flow_id=rng.choice(flows)))
     for k in range(3):
         env.process(src(k + 1))
     with quiet():
         env.run(until=10000)
+    if key is not None:
+        STATS[key] = (nput[0], len(out))
     return hashlib.sha256(repr(out).encode()).hexdigest()
 
 
@@ -50,6 +87,11 @@ def all_digests(seed):
         for label, flows in (('int', [0, 1, 2, 3, 4]), ('str', NAMES)):
             for k in range(2):
                 out[f'{kind}-{label}-{k}'] = scenario(kind, flows, seed * 10 + k)
+    # programs with random elements (lossy wire, RED port, random demux) that seed `random` at their start
+    for j, kind in enumerate(('sp', 'rr', 'wrr', 'drr', 'wfq', 'vc')):
+        for i, st in enumerate(STOCHASTIC):
+            key = f'{kind}-{st}-{i}'
+            out[key] = scenario(kind, [0, 1, 2, 3, 4] if (i + j) % 2 else NAMES, (seed * 10 + 3 + i) * 7 + j, stochastic=st, key=key)
     return out
 
 
